@@ -60,7 +60,14 @@ def gen_saturated(tier, rng, prefix, count):
     cancellation / a free worker; every gate is opened by the second thread"""
     out = []
     for i in range(count):
-        v = ["try", "cancel_task", "cancel_pool", "backpressure"][i % 4]
+        v = ["try", "cancel_task", "cancel_pool", "backpressure", "expanded_cancel"][i % 5]
+        if v == "expanded_cancel":
+            # the Do that spawned an expanded worker still waits (the worker expired before taking anything, or took the
+            # queued task): cancelling its own context must release it within the phase - the gate opens only afterwards
+            ths = [["D1,0,1", "W1", "D2", "D3,2", "/", "R1", "R2", "R3"], ["A1", "F0", "C2", "/", "G1"]]
+            out.append(S("%s%d" % (prefix, i), ths, dfs(tier, 8000, 80000, p=3) if rng.random() < 0.5 else rnd(tier, rng, 800, 6000),
+                         workers=1, limit=rng.choice([1, 1, 2]), autostart=1))
+            continue
         if v == "try":
             ths = [["D1,0,1", "D2", "T3", "Y4", "/", "R1", "R2", "r3", "r4"], ["/", "G1"]]
             o = dict(expect_res_0_2="b0", expect_res_0_3="b0")
@@ -171,6 +178,26 @@ def gen_race_stop(tier, rng, prefix, count):
                      workers=workers, limit=limit, autostart=autostart))
     return out
 
+def gen_deferred_start(tier, rng, prefix, count):
+    """a pool created with DisableAutoStart: submitters fill the queue slot and block (holding the read lock)
+    BEFORE Start is called; Start must get through, serve them, and TryDo must keep returning at once"""
+    out = []
+    for i in range(count):
+        workers, limit = rng.choice([(1, 0), (1, 0), (2, 0), (1, 1)])
+        n = 2 + limit + rng.choice([0, 1])
+        subs = ["D%d" % (k + 1) for k in range(n)]
+        reads = ["R%d" % (k + 1) for k in range(n)]
+        v = i % 3
+        if v == 0:
+            ths = [subs + ["/"] + reads, ["S", "T11", "/", "r11"]]
+        elif v == 1:
+            ths = [subs + ["/"] + reads, ["S", "/"], ["T11", "Y12", "/", "r11", "r12"]]
+        else:
+            ths = [subs[:1] + ["/"] + reads[:1], subs[1:] + ["/"] + reads[1:], ["T11", "S", "T12", "/", "r11", "r12"]]
+        out.append(S("%s%d" % (prefix, i), ths, dfs(tier, 6000, 80000) if len(ths) == 2 else rnd(tier, rng, 600, 6000),
+                     workers=workers, limit=limit, autostart=0))
+    return out
+
 def gen_c04(tier, rng):
     return (gen_basic(tier, rng, "a", scale(tier, 24, 200), stop=False) + gen_basic(tier, rng, "b", scale(tier, 16, 150), stop=True)
             + gen_saturated(tier, rng, "s", scale(tier, 8, 60)) + gen_stop(tier, rng, "x", scale(tier, 10, 80)))
@@ -182,8 +209,9 @@ def gen_c11(tier, rng):
     return gen_expansion(tier, rng, "a", scale(tier, 24, 200)) + gen_basic(tier, rng, "b", scale(tier, 10, 80), stop=False, cancels=False)
 
 def gen_c12(tier, rng):
-    return gen_race_stop(tier, rng, "a", scale(tier, 36, 300)) + gen_basic(tier, rng, "b", scale(tier, 10, 80), stop=True, starts=True)
+    return gen_race_stop(tier, rng, "a", scale(tier, 36, 300)) + gen_basic(tier, rng, "b", scale(tier, 10, 80), stop=True, starts=True) \
+        + gen_deferred_start(tier, rng, "d", scale(tier, 9, 60))
 
 def gen_c17(tier, rng):
     return gen_saturated(tier, rng, "a", scale(tier, 24, 200)) + gen_expansion(tier, rng, "e", scale(tier, 6, 50)) \
-        + gen_basic(tier, rng, "b", scale(tier, 10, 80), stop=False)
+        + gen_basic(tier, rng, "b", scale(tier, 10, 80), stop=False) + gen_deferred_start(tier, rng, "d", scale(tier, 9, 60))
